@@ -355,6 +355,16 @@ def iterator_step_rules(ck, c):
     idx = [(bi, t) for (bi, t) in f.calls(r"ops::Index::index$") if "KeyIndexPair" in (t["f"].get("self") or "")]
     ok = len(idx) == 1 and any(k == "cmp:Lt" and v is True and "children" in nn and "len" in nn for (k, nn, v) in conditions_at(f, idx[0][0]))
     ck.ob("BOUNDS", f.path, "child-index-below-number-of-children", ok, "children[next_child] is reached only under next_child < children.len()", f.loc(idx[0][0]) if idx else f.loc())
+    # the iterator descends only through make_owned: that call is what copies a child list owned by an OLDER generation into
+    # the current one (fresh nodes, fresh read-only entries); reading an already owned list directly hands out the older
+    # generation's nodes and entry handles (stale after a delete, writable across a rollback)
+    idx_all = [(bi, t) for (bi, t) in f.calls(r"ops::Index::index$") if "KeyIndexPair" in (t["f"].get("self") or "")]
+    via = [(bi, t) for (bi, t) in idx_all if has_call_origin(f.origins(t["args"][0], deep=True), r"low_level::make_owned$")]
+    direct = f.calls(r"ChildrenCow::<.*>::get_owned(_mut)?$|ChildrenCow::get_owned(_mut)?$")
+    ck.ob("DEFUSE", f.path, "descends-only-through-make_owned", len(idx_all) >= 1 and len(via) == len(idx_all) and not direct,
+          "every child taken by the iterator comes out of make_owned (migrated to the current generation)" if len(via) == len(idx_all) and not direct else
+          "the iterator reads a child list without make_owned (%d of %d child reads, %d direct get_owned): children owned by an older generation are visited in place" % (len(idx_all) - len(via), len(idx_all), len(direct)),
+          f.loc(direct[0][0]) if direct else f.loc())
     pushes = [(bi, t) for (bi, t) in f.calls(r"Vec::<T, A>::push$") if ("field", "stack") in f.origins(t["args"][0], deep=True)]
     ok = False
     for (bi, t) in pushes:
